@@ -56,11 +56,12 @@ def main():
     rc_with, out_with = sh('%s _seed/demo.py' % PY, wt, 900)
     res['demo_with_change'] = {'rc': rc_with, 'tail': out_with.strip()[-300:]}
     # (3) demo without
-    sh('git stash -q', wt)
+    # (the stash is shared between worktrees of one repository: reverse-apply the diff instead)
+    sh('git diff -- skoolkit c > _seed/.current.diff && git apply -R _seed/.current.diff', wt)
     if changes_c:
         rebuild_c(wt)
     rc_without, out_without = sh('%s _seed/demo.py' % PY, wt, 900)
-    sh('git stash pop -q', wt)
+    sh('git apply _seed/.current.diff', wt)
     if changes_c:
         rebuild_c(wt)
     res['demo_without_change'] = {'rc': rc_without, 'tail': out_without.strip()[-300:]}
@@ -88,7 +89,7 @@ def main():
     meta['breaks_property'] = prop
     meta['verified'] = {k: res[k] for k in ('tests_summary', 'tests_failed_outside_known', 'tests_flaky_under_xdist', 'demo_with_change', 'demo_without_change', 'confirmed')}
     meta['ran'] = ['cd <worktree> && /venv/bin/python -m pytest -q -p no:cacheprovider -n 8',
-                   'cd <worktree> && /venv/bin/python _seed/demo.py  (with the change: exit 1; after git stash: exit 0)'] + \
+                   'cd <worktree> && /venv/bin/python _seed/demo.py  (with the change: exit 1; with the diff reverse-applied: exit 0)'] + \
                   ['VERIF_REPO=<worktree> ./check %s --tier quick' % c for c in checks]
     meta['our_checks'] = res['checks']
     with open(os.path.join(d, 'meta.json'), 'w') as f:
